@@ -50,6 +50,8 @@ struct uqueue {
     struct ufifo fifo;
     /** number of elements in the queue */
     uatomic_uint32_t counter;
+    /** number of threads currently inside @ref uqueue_push */
+    uatomic_uint32_t pushers;
     /** maximum number of elements in the queue */
     uint32_t length;
     /** ueventfd triggered when data can be pushed */
@@ -85,6 +87,7 @@ static inline bool uqueue_init(struct uqueue *uqueue, uint8_t length,
 
     ufifo_init(&uqueue->fifo, length, extra);
     uatomic_init(&uqueue->counter, 0);
+    uatomic_init(&uqueue->pushers, 0);
     uqueue->length = length;
     return true;
 }
@@ -135,13 +138,21 @@ static inline struct upump *uqueue_upump_alloc_pop(struct uqueue *uqueue,
  */
 static inline bool uqueue_push(struct uqueue *uqueue, void *element)
 {
+    /* The element is visible to the popper before we are done with the
+     * queue (counter, event descriptor). A popper that destroys the queue
+     * when it receives this element (last message of a conversation) must be
+     * able to tell: @ref uqueue_clean waits for this count to drop. */
+    uatomic_fetch_add(&uqueue->pushers, 1);
+
     if (unlikely(!ufifo_push(&uqueue->fifo, element))) {
         /* signal that we are full */
         ueventfd_read(&uqueue->event_push);
 
         /* double-check */
-        if (likely(!ufifo_push(&uqueue->fifo, element)))
+        if (likely(!ufifo_push(&uqueue->fifo, element))) {
+            uatomic_fetch_sub(&uqueue->pushers, 1);
             return false;
+        }
 
         /* signal that we're alright again */
         ueventfd_write(&uqueue->event_push);
@@ -152,6 +163,8 @@ static inline bool uqueue_push(struct uqueue *uqueue, void *element)
      * always signal. */
     uatomic_fetch_add(&uqueue->counter, 1);
     ueventfd_write(&uqueue->event_pop);
+    /* last access to the queue */
+    uatomic_fetch_sub(&uqueue->pushers, 1);
     return true;
 }
 
@@ -207,6 +220,9 @@ static inline unsigned int uqueue_length(struct uqueue *uqueue)
  */
 static inline void uqueue_clean(struct uqueue *uqueue)
 {
+    /* a pusher whose element we already popped may still be signalling */
+    while (unlikely(uatomic_load(&uqueue->pushers) != 0));
+    uatomic_clean(&uqueue->pushers);
     uatomic_clean(&uqueue->counter);
     ufifo_clean(&uqueue->fifo);
     ueventfd_clean(&uqueue->event_push);
